@@ -110,6 +110,15 @@ template <class P> struct poisoning {
     std::shared_ptr<matrix> system_matrix_ptr() const { return p.system_matrix_ptr(); }
 };
 
+// what the output vector of an apply() holds on entry must not matter: every call gets a different filling
+static double prefill() { static int k = 0; static const double V[] = {7.25, -3.5, 1e3, 0.0, -0.015625}; return V[k++ % 5]; }
+
+// a make_solver used as a preconditioner: constructed from (matrix, amg-like params), inner iteration capped
+template <class MS> struct nested : MS {
+    struct params : MS::params { params() { this->precond.coarse_enough = 8; this->precond.allow_rebuild = true; this->solver.maxiter = 3; this->solver.tol = 1e-2; } };
+    template <class M> nested(const M &A, const params &p = params()) : MS(A, p) {}
+    template <class M> void rebuild(const M &A) { this->precond().rebuild(A); }
+};
 // ---------------------------------------------------------------- object kinds
 struct object { virtual ~object() {} virtual outcome call(const std::string &kind, const problem &p, vec *xbuf = 0) = 0; virtual bool has_tol() const { return true; }
     // switch the object to the matrix of `target` (amg::rebuild); false = this kind of object has no rebuild
@@ -148,7 +157,7 @@ struct precond_only : object {      // amg / as_preconditioner: apply()
     bool has_tol() const override { return false; }
     bool rebuild(const problem &t) override { return try_rebuild(P, *t.A, 0); }
     outcome call(const std::string &kind, const problem &p, vec *xbuf = 0) override {
-        outcome o; vec own; vec &X = xbuf ? *xbuf : own; X.assign(p.n, 7.25);
+        outcome o; vec own; vec &X = xbuf ? *xbuf : own; X.assign(p.n, prefill());
         const vec &f = kind == "solve" || kind == "converged_guess" || kind == "throw_inside" || kind == "throw_late" ? p.f1 : kind == "zero_rhs" ? p.zero : kind == "solve_unit" ? p.funit : kind == "nan_rhs" || kind == "poison_inside" ? p.fnan : p.f2;
         try { P.apply(f, X); } catch (const std::exception &) { o.threw = true; }
         o.x = X; return o;
@@ -165,7 +174,7 @@ struct precond_scaled : object {
     bool has_tol() const override { return false; }
     bool rebuild(const problem &t) override { As = scaled(t, sc); return try_rebuild(P, *As, 0); }
     outcome call(const std::string &kind, const problem &p, vec *xbuf = 0) override {
-        outcome o; vec own; vec &X = xbuf ? *xbuf : own; X.assign(p.n, 7.25);
+        outcome o; vec own; vec &X = xbuf ? *xbuf : own; X.assign(p.n, prefill());
         const vec &f = kind == "solve" || kind == "converged_guess" || kind == "throw_inside" || kind == "throw_late" ? p.f1 : kind == "zero_rhs" ? p.zero : kind == "solve_unit" ? p.funit : kind == "nan_rhs" || kind == "poison_inside" ? p.fnan : p.f2;
         try { P.apply(f, X); } catch (const std::exception &) { o.threw = true; }
         o.x = X; return o;
@@ -175,7 +184,7 @@ struct skyline : object {
     amgcl::solver::skyline_lu<double> lu; skyline(const problem &p) : lu(*p.A) {}
     bool has_tol() const override { return false; }
     outcome call(const std::string &kind, const problem &p, vec *xbuf = 0) override {
-        outcome o; vec own; vec &X = xbuf ? *xbuf : own; X.assign(p.n, -3.5);
+        outcome o; vec own; vec &X = xbuf ? *xbuf : own; X.assign(p.n, prefill());
         const vec &f = kind == "solve" || kind == "converged_guess" || kind == "throw_inside" || kind == "throw_late" ? p.f1 : kind == "zero_rhs" ? p.zero : kind == "solve_unit" ? p.funit : kind == "nan_rhs" || kind == "poison_inside" ? p.fnan : p.f2;
         lu(f, X); o.x = X; return o;
     }
@@ -219,6 +228,18 @@ static std::vector<std::pair<std::string, factory>> kinds() {
     { idrs<B>::params p; p.s = 3; v.push_back({"idrs", K<idrs<B>, AMG2>(p)}); }
     { richardson<B>::params p; p.maxiter = 40; v.push_back({"richardson", K<richardson<B>, AMG1>(p)}); }
     v.push_back({"preonly", K<preonly<B>, AMG1>(preonly<B>::params(), false)});
+    // non-default solver options whose extra state lives in the object
+    { bicgstabl<B>::params p; p.L = 2; p.convex = false; v.push_back({"bicgstabl-nonconvex", K<bicgstabl<B>, AMG1>(p)}); }
+    { bicgstabl<B>::params p; p.L = 2; p.delta = 0.01; v.push_back({"bicgstabl-reliable", K<bicgstabl<B>, AMG1>(p)}); }
+    { idrs<B>::params p; p.s = 2; p.smoothing = true; v.push_back({"idrs-smoothing", K<idrs<B>, AMG1>(p)}); }
+    { idrs<B>::params p; p.s = 4; p.replacement = true; v.push_back({"idrs-replacement", K<idrs<B>, AMG1>(p)}); }
+    { gmres<B>::params p; p.M = 3; p.pside = amgcl::preconditioner::side::left; v.push_back({"gmres-left", K<gmres<B>, AMG1>(p)}); }
+    { lgmres<B>::params p; p.M = 2; p.K = 3; p.pside = amgcl::preconditioner::side::left; v.push_back({"lgmres-left", K<lgmres<B>, AMG1>(p)}); }
+    // (ns_search = true is left out on purpose: it is documented to ignore the trivial solution of a zero right-hand side)
+    // a complete inner solver used as the preconditioner (make_solver::apply clears its output and runs the inner iteration)
+    { typedef amgcl::make_solver<AMG1, bicgstab<B>> INNER; fgmres<B>::params p; p.M = 4;
+      v.push_back({"fgmres-nested-make_solver", [p](const problem &q) { return std::unique_ptr<object>(new krylov<fgmres<B>, nested<INNER>>(q, p, true)); }});
+      v.push_back({"nested-make_solver-apply", [](const problem &q) { return std::unique_ptr<object>(new precond_only<nested<INNER>>(q)); }}); }
     v.push_back({"amg-sa-spai0", [](const problem &p) { return std::unique_ptr<object>(new precond_only<AMG1>(p)); }});
     v.push_back({"amg-rs-ilu0", [](const problem &p) { return std::unique_ptr<object>(new precond_only<AMG2>(p)); }});
     v.push_back({"as_preconditioner-gauss_seidel", [](const problem &p) { return std::unique_ptr<object>(new precond_only<amgcl::relaxation::as_preconditioner<B, amgcl::relaxation::gauss_seidel>>(p)); }});
